@@ -19,7 +19,7 @@ LEAN_TARGETS = ["VectorModel.Props.C07"]
 THEOREM_FILES = ["VectorModel/Props/C07.lean"]
 NEEDS_TRANSLATOR = True
 NOT_COVERED = ["the Numba compiler itself (LLVM code generation): the theorems are about which function is selected and how the result is wrapped",
-               "Awkward arrays iterated inside compiled functions: sampled by two compile-and-run probes only"]
+               "Awkward arrays iterated inside compiled functions: sampled by three compile-and-run probes only"]
 PROPS = ["x", "y", "rho", "rho2", "phi", "z", "theta", "eta", "costheta", "cottheta", "mag", "mag2", "t", "t2", "tau", "tau2", "beta", "gamma",
          "rapidity", "px", "py", "pt", "pz", "E", "mass", "Et", "Mt"]
 UNARY = [("rotateZ", 1), ("rotateX", 1), ("rotateY", 1), ("scale", 1), ("unit", 0), ("to_xyz", 0), ("to_rhophieta", 0), ("to_xyzt", 0),
@@ -111,6 +111,38 @@ def probe_worker(job):
     return src, toks, interp, comp
 
 
+AK_PROBES = [
+    "def f(a):\n    out = 0.0\n    for ev in a:\n        for v in ev:\n            out += v.rho + v.z + v.t\n    return out\n",
+    "def f(a):\n    out = 0.0\n    for ev in a:\n        for i in range(len(ev)):\n            for j in range(i + 1, len(ev)):\n                out += ev[i].add(ev[j]).mass\n    return out\n",
+    "def f(a):\n    out = 0.0\n    for ev in a:\n        for v in ev:\n            out += v.rotateZ(0.3).to_xyzt().x + v.deltaR(ev[0])\n    return out\n",
+]
+
+
+def ak_probe_worker(job):
+    """Awkward array of vectors iterated inside a compiled function vs the same Python function interpreted"""
+    src, sig, seed = job
+    import awkward as ak
+    import numba
+    import vector
+    from harness import common as Cm
+    vector.register_awkward()
+    r = Cm.rng(seed, "akprobe")
+    rows = [Cm.cart_to_stored(sig, p) for p in Cm.strata_points(len(sig) + 1, r, n_random=3)[-6:]]
+    arr = ak.unflatten(Cm.ak_array("m", sig, rows), [2, 0, 3, 1])
+    ns = {}
+    exec(src, ns)
+    f = ns["f"]
+    try:
+        i = ("s", float(f(arr)))
+    except Exception as e:  # noqa: BLE001
+        i = ("raises", type(e).__name__)
+    try:
+        c = ("s", float(numba.njit(f)(arr)))
+    except Exception as e:  # noqa: BLE001
+        c = ("raises", type(e).__name__)
+    return src, list(sig), i, c
+
+
 def same(a, b):
     if type(a) is not type(b) or (isinstance(a, tuple) and len(a) != len(b)):
         return False
@@ -180,6 +212,12 @@ def correspondence(ctx):
     jobs.append(("def f(v, w):\n    return v.add(w)\n", ["g:xy:-:-:1", "m:rhophi:-:-:2"]))       # the known finding, for the record
     with mp.get_context("spawn").Pool(min(12, os.cpu_count() or 4)) as pool:
         results = pool.map(probe_worker, jobs)
+        akjobs = [(src, r.choice(C.SIG4), ctx.seed + k) for k, src in enumerate(AK_PROBES)]
+        akres = pool.map(ak_probe_worker, akjobs)
+    for src, sig, interp, comp in akres:
+        if not same(interp, comp):
+            dis.append(f"awkward-in-numba probe on {sig}: interpreter {interp}, compiled {comp}: {src.strip()[:80]!r}")
+            fails.append({"key": "numba-awkward-probe", "what": dis[-1][:300], "code": None})
     known = 0
     for src, toks, interp, comp in results:
         mixed = len({t[0] for t in toks}) > 1
@@ -192,7 +230,7 @@ def correspondence(ctx):
             fails.append({"key": "numba-probe:" + src.split("return")[1].strip()[:30], "what": dis[-1][:300], "code": probe_replay(src, toks)})
     return {"ok": not dis, "disagreements": dis[:12], "failing_inputs": fails[:8],
             "stats": {"traces_validated_against_impl": len(reqs) + len(jobs), "typing_resolutions": len(reqs), "unsupported_by_model": unsupported,
-                      "compile_and_run_probes": len(jobs), "known_mixed_flavor_probes": known},
+                      "compile_and_run_probes": len(jobs), "awkward_in_numba_probes": len(akjobs), "known_mixed_flavor_probes": known},
             "samples": [{"request": reqs[i], "numba": real[i], "model": model_type(model[i])} for i in (0, len(reqs) // 2, len(reqs) - 1)]}
 
 
